@@ -37,7 +37,7 @@ def verify_unit(name, tier, seed, workdir=None):
     try:
         u = build_unit(name)
         text = u.render()
-    except ExtractError as e:
+    except Exception as e:  # ExtractError (lost anchor) or any failure to assemble the unit: undecided, never a violation
         return {'unit': name, 'status': 'undecided', 'reason': f'extraction: {e}', 'failures': [], 'fns': [], 'oblig': {'total': 0}, 'wall_s': time.time() - t0, 'assumptions': [], 'cmd': '', 'smt_ms': 0, 'verified': 0}
     oblig = count_obligations(text)
     rl = u.rlimit * (4 if tier == 'thorough' else 1)
